@@ -49,7 +49,10 @@ type GenOpts struct {
 	NoEmptyLM   bool // no empty lists/maps (the SDK v2 adapter returns them as NULL: a listed finding of C10)
 }
 
-var strPool = []string{"", "a", "b", "ab", "abc", "x", "hello", "A", "a b", "1", "é", "日本", "z\x00z", "a.b", "#x", ":v"}
+var strPool = []string{"", "a", "b", "ab", "abc", "x", "hello", "A", "a b", "1", "é", "日本", "z\x00z", "a.b", "#x", ":v",
+	// characters at the end of the Basic Multilingual Plane and one beyond it: UTF-8 byte order (DynamoDB's order of
+	// strings) and UTF-16 code-unit order disagree about them
+	"\uffff", "\U0001F44D", "\uff71a"}
 var asciiPool = []string{"", "a", "b", "ab", "abc", "x", "hello", "A", "a b", "1", "zz", "ba"}
 var binPool = []string{"", "\x00", "\x01", "a", "ab", "\xff", "\x00\x01", "\n", "\x0a\x00", "\x09"}
 
@@ -414,4 +417,26 @@ func ConfusablePairs() [][2][2]string {
 		}
 	}
 	return confusable
+}
+
+// NearValues are pairs of DIFFERENT attribute values that a plausible-but-wrong notion of "the same value"
+// confuses: set members that differ only in where a separator falls (a join of the members is not injective),
+// lists versus their concatenation, values of different types with the same text, nested versus dotted names.
+// Writing one over the other must always change what is stored.
+var NearValues = [][2]val.V{
+	{val.SS("a,b"), val.SS("a", "b")}, {val.SS("x,y", "z"), val.SS("x", "y,z")}, {val.SS("a b"), val.SS("a", "b")}, {val.SS("a\x00b"), val.SS("a", "b")},
+	{val.SS("a|b"), val.SS("a", "b")}, {val.SS("a.b"), val.SS("a", "b")}, {val.SS("ab"), val.SS("a", "b")}, {val.SS("a\nb"), val.SS("a", "b")}, {val.SS("a;b", "c"), val.SS("a", "b;c")},
+	{val.SS("", "a"), val.SS("a")}, {val.SS(",", "a"), val.SS("a,", "")}, {val.SS("[a b]"), val.SS("a", "b")}, {val.SS("a\",\"b"), val.SS("a", "b")},
+	{val.BS("a,b"), val.BS("a", "b")}, {val.BS("ab"), val.BS("a", "b")}, {val.BS("\x00", "a"), val.BS("\x00a")}, {val.BS("a"), val.SS("a")}, {val.BS("YQ=="), val.BS("a")},
+	{val.NS("1", "10"), val.NS("110")}, {val.NS("1", "2"), val.NS("12")}, {val.NS("1"), val.SS("1")}, {val.NS("1", "2"), val.NS("1", "2", "3")}, {val.NS("0.1", "1"), val.NS("0.11")},
+	{val.List(val.Str("a"), val.Str("b")), val.List(val.Str("ab"))}, {val.List(val.Str("a,b")), val.List(val.Str("a"), val.Str("b"))}, {val.List(val.Str("a")), val.SS("a")},
+	{val.List(val.List(val.Str("a")), val.Str("b")), val.List(val.Str("a"), val.List(val.Str("b")))}, {val.List(val.Str("a"), val.Null()), val.List(val.Str("a"))},
+	{val.List(val.Num("1"), val.Num("2")), val.List(val.Num("12"))}, {val.List(val.Str("1")), val.List(val.Num("1"))},
+	{val.Str("1"), val.Num("1")}, {val.Str("a"), val.Bin("a")}, {val.Str("a"), val.SS("a")}, {val.Str(""), val.Null()}, {val.Bool(false), val.Null()}, {val.Str("true"), val.Bool(true)},
+	{val.Str("YQ=="), val.Bin("a")}, {val.Num("0"), val.Bool(false)}, {val.Str("NULL"), val.Null()},
+	{val.Map(map[string]val.V{"a.b": val.Str("x")}), val.Map(map[string]val.V{"a": val.Map(map[string]val.V{"b": val.Str("x")})})},
+	{val.Map(map[string]val.V{"a": val.Str("b,c")}), val.Map(map[string]val.V{"a": val.Str("b"), "c": val.Str("")})},
+	{val.Map(map[string]val.V{"a": val.SS("x,y")}), val.Map(map[string]val.V{"a": val.SS("x", "y")})},
+	{val.Map(map[string]val.V{"k": val.List(val.Str("a"), val.Str("b"))}), val.Map(map[string]val.V{"k": val.List(val.Str("a b"))})},
+	{val.Map(map[string]val.V{"0": val.Str("a")}), val.List(val.Str("a"))}, {val.Map(map[string]val.V{"a": val.Null()}), val.Map(map[string]val.V{"a": val.Str("")})},
 }
